@@ -9,6 +9,7 @@ import GLua.Engines.LimitsEng
 import GLua.Engines.C16Eng
 import GLua.Engines.ScopeEng
 import GLua.Engines.LexEng
+import GLua.Engines.LexRenderEng
 import GLua.Engines.CancelEng
 import GLua.Engines.MetaEng
 import GLua.Engines.ChanEng
@@ -50,6 +51,7 @@ def stepLine (s : DState) (line : String) : DState × String :=
   | "C16" :: r => (s, (C16Eng.handle r).show)
   | "C17M" :: r => (s, (ScopeEng.handle r).show)
   | "L" :: r => (s, (LexEng.handle r).show)
+  | "LR" :: r => (s, LexRenderEng.handle r)
   | "C11M" :: r => (s, (CancelEng.handle r).show)
   | "C04M" :: r => let (t, v) := MetaEng.handle s.meta04 r; ({ s with meta04 := t }, MetaEng.render v)
   | "C13" :: r => let (t, v) := ChanEng.handle s.chan r; ({ s with chan := t }, v.show)
